@@ -73,6 +73,17 @@ impl<'a> RootSymbol<'a> {
     &self,
     specifier: &ModuleSpecifier,
   ) -> Option<ModuleInfoRef<'_>> {
+    self.module_from_specifier_inner(specifier, &mut Vec::new())
+  }
+
+  fn module_from_specifier_inner<'b>(
+    &self,
+    specifier: &'b ModuleSpecifier,
+    seen_types_deps: &mut Vec<&'b ModuleSpecifier>,
+  ) -> Option<ModuleInfoRef<'_>>
+  where
+    'a: 'b,
+  {
     if let Some(module_id) = self.specifiers_to_ids.get(specifier) {
       let module_symbol = self.ids_to_modules.get(&module_id).unwrap();
       return Some(module_symbol.as_ref());
@@ -81,20 +92,23 @@ impl<'a> RootSymbol<'a> {
     let graph_module = self.module_graph.get(specifier)?;
 
     match graph_module {
-      crate::Module::Js(js_module) => js_module
-        .maybe_types_dependency
-        .as_ref()
-        .and_then(|types| {
-          types.dependency.maybe_specifier().and_then(|specifier| {
-            // shouldn't happen, but prevent circular loops
-            if specifier != &js_module.specifier {
-              self.module_from_specifier(specifier)
-            } else {
-              None
-            }
+      crate::Module::Js(js_module) => {
+        // prevent circular loops (the types dependency may lead back to
+        // this module, directly, through a redirect or via other modules)
+        if seen_types_deps.contains(&&js_module.specifier) {
+          return None;
+        }
+        seen_types_deps.push(&js_module.specifier);
+        js_module
+          .maybe_types_dependency
+          .as_ref()
+          .and_then(|types| {
+            types.dependency.maybe_specifier().and_then(|specifier| {
+              self.module_from_specifier_inner(specifier, seen_types_deps)
+            })
           })
-        })
-        .or_else(|| self.analyze_js_module(js_module)),
+          .or_else(|| self.analyze_js_module(js_module))
+      }
       crate::Module::Json(json_module) => {
         Some(self.analyze_json_module(json_module))
       }
